@@ -194,6 +194,31 @@ func init() {
 		c.Orientation = "sideways"
 		return d.SetPageSettings(&c)
 	}, func(s *c12S) bool { return false })
+	// one PageSettings object the caller keeps for the whole history: it changes the fields it cares about and
+	// hands the same object over again, relying on the other fields being as it left them
+	kept := func(name string, edit func(k *document.PageSettings), md func(k *c12S)) {
+		add("kept PageSettings object: "+name+", SetPageSettings(kept)", func(d *document.Document) error {
+			i := c12Cur
+			if i.kept == nil {
+				c := *full
+				i.kept = &c
+			}
+			edit(i.kept)
+			return d.SetPageSettings(i.kept)
+		}, func(s *c12S) bool {
+			i := c12Cur
+			if !i.keptInit {
+				i.keptS = c12S{CW: 150, CH: 250, Land: true, MT: 1, MR: 2, MB: 3, ML: 4, Hdr: 5, Ftr: 6, Gut: 7, Grid: c12Grid{"snapToChars", 400, 9}}
+				i.keptInit = true
+			}
+			md(&i.keptS)
+			*s = i.keptS
+			return true
+		})
+	}
+	kept("custom 210.4x297.3 (within 1 mm of A4)", func(k *document.PageSettings) { k.CustomWidth, k.CustomHeight = 210.4, 297.3 }, func(k *c12S) { k.CW, k.CH = 210.4, 297.3 })
+	kept("custom 100x150", func(k *document.PageSettings) { k.CustomWidth, k.CustomHeight = 100, 150 }, func(k *c12S) { k.CW, k.CH = 100, 150 })
+	kept("margins 11,12,13,14", func(k *document.PageSettings) { k.MarginTop, k.MarginRight, k.MarginBottom, k.MarginLeft = 11, 12, 13, 14 }, func(k *c12S) { k.MT, k.MR, k.MB, k.ML = 11, 12, 13, 14 })
 	c12Ops = append(c12Ops, c12Op{name: "GetPageSettings()", kind: "get"})
 	c12Ops = append(c12Ops, c12Op{name: "reopen", kind: "reopen"})
 	c12Ops = append(c12Ops, c12Op{name: "AddParagraph", kind: "para"})
@@ -214,7 +239,14 @@ type c12Inst struct {
 	s      c12S
 	lastNT bool
 	reop   int
+	// the caller's kept settings object and what the caller put into it
+	kept     *document.PageSettings
+	keptS    c12S
+	keptInit bool
 }
+
+// c12Cur is the instance whose operation is being applied (operations are closures without instance argument).
+var c12Cur *c12Inst
 
 func (i *c12Inst) Enabled(op int) bool {
 	if c12Ops[op].kind == "reopen" {
@@ -380,6 +412,7 @@ func (i *c12Inst) Apply(op int) (string, []rep.Violation) {
 	before := i.attrs()
 	var gb *document.PageSettings
 	guard(func() { gb = i.doc.GetPageSettings() })
+	c12Cur = i
 	m := i.s
 	accept := o.model(&m)
 	var err error
@@ -418,7 +451,12 @@ func (i *c12Inst) Apply(op int) (string, []rep.Violation) {
 
 func (i *c12Inst) Key() string {
 	b, _ := json.Marshal(i.s)
-	return i.attrs() + "|" + string(b) + fmt.Sprintf("|r%d", i.reop) + "|" + rep.Hash(i.doc.VerifShallowState())
+	kk := "no-kept"
+	if i.kept != nil {
+		kb, _ := json.Marshal(i.keptS)
+		kk = fmt.Sprintf("%+v/%s", *i.kept, kb)
+	}
+	return i.attrs() + "|" + string(b) + "|" + kk + fmt.Sprintf("|r%d", i.reop) + "|" + rep.Hash(i.doc.VerifShallowState())
 }
 
 // Deep: the saved w:pgSz / w:pgMar / w:docGrid carry the model's values.
